@@ -4,7 +4,7 @@
    On trees without fixed parts the extended view is the proved view by construction ([xview_sized]). *)
 From Coq Require Import ZArith List Bool Lia ZifyBool.
 Import ListNotations.
-From Urwid Require Import PyBase geo_padfill_gen Geometry GeometryX GeometryFacts GeometryProofs.
+From Urwid Require Import PyBase geo_padfill_gen Geometry GeometryX GeometryFacts GeometryProofs GeometryLayoutTie.
 Open Scope Z_scope.
 
 Arguments Z.add : simpl never. Arguments Z.sub : simpl never. Arguments Z.mul : simpl never.
@@ -577,12 +577,7 @@ End XPadding.
 Lemma clrp_clip_sum maxcol at_ aamt w l0 r0 :
   let lr := calculate_left_right_padding maxcol at_ aamt GClip w None l0 r0 in
   fst lr + w + snd lr = maxcol.
-Proof.
-  unfold calculate_left_right_padding. cbv zeta.
-  set (k := int_scale _ _ _). clearbody k. cbn [andb].
-  destruct ((r0 + k <? 0) && (0 <? maxcol - w - (r0 + k))) eqn:E1; cbn [fst snd]; [lia|].
-  destruct ((maxcol - w - (r0 + k) <? 0) && (0 <? r0 + k)) eqn:E3; cbn [fst snd]; lia.
-Qed.
+Proof. exact (clrp_clip_sum_c19 maxcol at_ aamt w None l0 r0). Qed.
 
 (* ---- Overlay, also with width 'pack' (fixed top widget) ---- *)
 Section XOverlay.
